@@ -301,15 +301,24 @@ def run(tier, only=None):
     t0 = time.time()
     shapes = (QUICK if tier == "quick" else THOROUGH) if (not only or "ed25519" in only) else []
     shapes4 = (E4.QUICK if tier == "quick" else E4.THOROUGH) if (not only or "ed448" in only) else []
-    built = build(drivers(shapes) + E4.drivers(shapes4) + E4.replay_drivers(), tag="C07-cut", cut=True)
+    from . import C07_sign as SG
+    sshapes = (SG.QUICK if tier == "quick" else SG.THOROUGH) if (not only or "ed25519" in only or "sign" in only) else []
+    built = build(drivers(shapes) + E4.drivers(shapes4) + E4.replay_drivers() + (SG.drivers(sshapes) if sshapes else []),
+                  tag="C07-cut", cut=True)
     hooks = Hooks(built) if shapes else None
+    shooks = SG.Hooks(built) if sshapes else None
     timeout = 60 if tier == "quick" else 300
-    items = [("25519", s) for s in shapes] + [("448", s) for s in shapes4]
+    items = [("25519", s) for s in shapes] + [("448", s) for s in shapes4] + [("sign", s) for s in sshapes] + \
+        ([("seed", None)] if sshapes else [])
 
     def work(it):
         T.reset()
         if it[0] == "25519":
             return check_shape(built, hooks, it[1], timeout)
+        if it[0] == "sign":
+            return SG.check_sign(built, shooks, it[1], timeout)
+        if it[0] == "seed":
+            return SG.check_fromseed(built, shooks, timeout)
         return E4.check_shape(built, it[1], timeout)
     res = pmap(work, items, nproc=NCPU, timeout=timeout * 20)
     obs = []
@@ -317,7 +326,7 @@ def run(tier, only=None):
         if st == "ok":
             obs.extend(val)
         else:
-            o = Obligation("default:ed%s.verify_%s[sig=%d,ctx=%d,msg=%d]" % ((it[0],) + tuple(it[1])), "L")
+            o = Obligation("default:ed%s.%s" % (it[0], str(it[1])), "L")
             o.unknown("%s: %s" % (st, str(val)[-400:]))
             obs.append(o)
     built.close()
@@ -325,12 +334,16 @@ def run(tier, only=None):
     return finish("C07", tier, obs, t0,
                   functions_encoded=sorted(set(fn for o in obs for fn in o.functions)),
                   bounds={"shapes": [list(s) for s in shapes],
+                          "sign_shapes(variant, ctx len, msg len)": [list(s) for s in sshapes],
                           "build": "optimized IR with --cfg pornin_crrl_verif_cut (cut-point functions kept out of line)"},
                   stubs={"ed25519::Point::set_decode": "fresh point + status bit (C06/C19)",
                          "ModInt256::set_decode_reduce": "fresh scalar (C05)",
                          "SHA2Big::process": "uninterpreted compression function (C17)",
-                         "Point::verify_helper_vartime": "fresh verdict = cofactored equation (C10/C03)"},
+                         "Point::verify_helper_vartime": "fresh verdict = cofactored equation (C10/C03)",
+                         "ed25519::Point::set_mulgen (signing side)": "fresh point = [n]B (C04)",
+                         "ed25519::Point::encode (signing side)": "fresh 32 bytes (C06)"},
                   assumptions=["the stubs' contracts are decided by the checks named in `stubs`",
                                "message/context lengths beyond the listed shapes follow the same code path (lengths only drive the hash buffering: C17)"],
-                  outside=["signing side (deterministic RFC 8032 signature): not posed",
+                  outside=["Ed448 signing side: not posed (Ed25519 from_seed / sign_raw / sign_ctx / sign_ph are)",
+                           "that a signature so produced is accepted: follows from the two glue claims plus the stubs' contracts, not separately decided",
                            "that the helper implements the cofactored equation (C10) and low-order handling (C03)"])
